@@ -5,6 +5,7 @@
 #define ASL_SOCKETSERVER_H
 
 #include <asl/Socket.h>
+#include <asl/Mutex.h>
 
 namespace asl {
 	
@@ -66,6 +67,9 @@ class ASL_API SocketServer
 {
 	friend struct SockClientThread;
 	SockServerThread* _thread;
+	Array<SockClientThread*> _finishedClients; // handler threads that ended and wait to be joined and deleted
+	Mutex _finishedMutex;
+	void reapClients();
 protected:
 	Sockets _sockets;
 	bool _requestStop;
